@@ -73,7 +73,8 @@ def required(tier):
             "call_cache_entries_checked": 200, "ped_unequal_read_runs": 10, "tempered_runs": 5, "call_cache_high_ploidy_runs": 3,
             "cli_threshold_settings_compared": 12, "cli_records_compared": 60, "cli_tempered_settings": 2,
             "refit_assemble_compared": 15, "refit_pedigree_compared": 15, "refit_llk_cells_checked": 1000,
-            "cold_only_traces_checked": 20, "refit_read_sets_with_all_gap_reads": 8, "long_locus_runs": 6}
+            "cold_only_traces_checked": 20, "refit_read_sets_with_all_gap_reads": 8, "long_locus_runs": 6,
+            "call_cache_high_ploidy_many_haplotypes_runs": 4}
 
 
 # ---------------------------------------------------------------------------
@@ -574,7 +575,16 @@ def run_dict(tier, seed, spec, col):
         # ---- call (also pooled / high ploidy genotypes with few haplotypes)
         from mchap.calling import likelihood as CLK
 
-        if rng.random() < 0.3:
+        many = rng.random() < 0.25
+        if many:
+            # session 4: pooled / high ploidy AND hundreds of known haplotypes (a genotype no longer fits a packed 64-bit key)
+            ploidy = int(rng.choice([8, 10, 12]))
+            n_h = int(rng.choice([70, 130, 300, 400]))
+            codes = rng.permutation(512)[:n_h]
+            haps = np.array([[(int(c_) >> j) & 1 for j in range(9)] for c_ in codes], dtype=np.int8)
+            na = np.full(9, 2)
+            col.count("call_cache_high_ploidy_many_haplotypes_runs")
+        elif rng.random() < 0.3:
             ploidy = int(rng.choice([8, 10, 12]))
             haps, na = gen.gen_haplotype_set(rng, int(rng.integers(2, 4)), int(rng.integers(1, 4)))
         else:
@@ -588,9 +598,17 @@ def run_dict(tier, seed, spec, col):
         g = np.sort(rng.integers(0, len(haps), size=ploidy)).astype(np.int32)
         for it in range(30):
             CM.compound_step(g, haps, creads, ccounts, 0.1, None, d, int(rng.integers(0, 2)))
-        gl = list(_it.combinations_with_replacement(range(len(haps)), ploidy))
-        if len(gl) > 400:
-            gl = [gl[i] for i in rng.permutation(len(gl))[:400]]
+        if many:
+            # the space cannot be listed: the sampler's own state, its single-allele neighbours (what a sweep looks up) and random genotypes
+            gl = [tuple(sorted(int(a) for a in g))]
+            for _k in range(300):
+                base_g = list(gl[int(rng.integers(len(gl)))]) if rng.random() < 0.7 else [int(a) for a in rng.integers(0, len(haps), size=ploidy)]
+                base_g[int(rng.integers(ploidy))] = int(rng.integers(len(haps)))
+                gl.append(tuple(sorted(base_g)))
+        else:
+            gl = list(_it.combinations_with_replacement(range(len(haps)), ploidy))
+            if len(gl) > 400:
+                gl = [gl[i] for i in rng.permutation(len(gl))[:400]]
         if ploidy >= 8:
             col.count("call_cache_high_ploidy_runs")
         for gg in gl:
